@@ -584,7 +584,18 @@ Report execute(const Plan &plan_in, const Options &opt) {
 			for (size_t i = pos; i < end; ++i) rs.task_ops[plan.ops[i].task].push_back((int)i);
 			if ((int)ids.size() > rep.max_tasks) rep.max_tasks = (int)ids.size();
 			rt::g_log.ev("phase", 0, -1, (uint64_t)ph, ids.size());
+			seam::globals_guard_arm();
+			rt::sched_set_switch_hook(seam::globals_guard_rearm);
 			rt::sched_run_phase((int)ids.size(), ids.data(), task_body, &rs, rep.recorded);
+			rt::sched_set_switch_hook(nullptr);
+			{
+				uint64_t seen = 0;
+				for (auto &g : seam::globals_guard_disarm(&seen)) {
+					char sg[200]; snprintf(sg, sizeof sg, "library global lib+0x%lx written from %s code by two or more tasks", (unsigned long)g.lib_offset, g.pc_class == 1 ? "JIT-emitted" : "static assembly");
+					viol("ASM_GLOBAL_RACE", sg, "tasks=" + std::to_string(g.tasks), (int)pos);
+				}
+				rep.probes["asm_global_writes_seen"] = seen;
+			}
 			rs.in_concurrent = false;
 		}
 		pos = end;
